@@ -10,7 +10,7 @@ from common import hexs
 PROP = "C20"
 HARNESS = "fdio"
 COMPONENT = "fdio"
-TIE = ["TranslatedFd"]       # Lemmas/TranslatedFd.lean: Model/FdIO.lean write side = _json_object_to_fd as translated by tools/extract/c2lean.py
+TIE = ["TranslatedFd", "TranslatedFdRead"]       # Lemmas/TranslatedFd.lean: Model/FdIO.lean write side = _json_object_to_fd as translated by tools/extract/c2lean.py
 VARIANT = "asan"
 WRAPS = ("read", "write", "json_tokener_parse_ex", "malloc", "calloc", "realloc", "free", "strdup", "vasprintf")
 EXTRA_FLAGS = ("-pthread",)
